@@ -183,6 +183,10 @@ class Gen:
                         ctx[name] = None
                     keys.add(name)
                     continue
+                if default is not rm.REQ and self.chance(0.03):
+                    # the node configuration sets the parameter to null explicitly: configuration still beats the default
+                    node.setdefault("parameters", {})[name] = None
+                    continue
                 if r < 0.35:
                     node.setdefault("parameters", {})[name] = self.val()
                     if self.chance(0.25):  # same name also in context on purpose: config must win
@@ -424,12 +428,42 @@ def _string_sweep_case(g: "Gen") -> dict:
     return {"nodes": nodes, "ctx": {}, "data": rm.NODATA}
 
 
+def _null_param_sweep_case(g: "Gen") -> dict:
+    """A sweep whose wrapped element has a NON-swept parameter with a default, explicitly given as null (node
+    configuration or context): node parameters / context beat the default for null too (`limit: null` = "no limit").
+    The element then receives None - with the harness arithmetic that is a processor error at that node, exactly as
+    without a sweep; it must not silently fall back to the default."""
+    rng = g.rng
+    which = rng.choice(["VAffine", "VPoly", "VCollSrc"])
+    ctx: dict = {}
+    if which == "VAffine":
+        node = {"processor": "VAffine", "derive": {"parameter_sweep": {"parameters": {"a": "t"}, "variables": {"t": [g.val(), g.val()]}, "collection": "FloatDataCollection"}}}
+        null_name = "b"
+        nodes = [{"processor": "VSrc", "parameters": {"value": g.val()}}, node]
+    elif which == "VPoly":
+        node = {"processor": "VPoly", "parameters": {"q": g.val(), "r": g.val()},
+                "derive": {"parameter_sweep": {"parameters": {"p": "t + 1.0"}, "variables": {"t": [g.val(), g.val(), g.val()]}, "collection": "FloatDataCollection"}}}
+        null_name = "s"
+        nodes = [{"processor": "VSrc", "parameters": {"value": g.val()}}, node]
+    else:
+        node = {"processor": "VCollSrc", "derive": {"parameter_sweep": {"parameters": {"n": "int(t)"}, "variables": {"t": [1.0, 2.0]}, "collection": "FloatDataCollection"}}}
+        null_name = "start"
+        nodes = [node]
+    if rng.random() < 0.6:
+        node.setdefault("parameters", {})[null_name] = None
+    else:
+        ctx[null_name] = None
+    return {"nodes": nodes, "ctx": ctx, "data": rm.NODATA}
+
+
 def sweep_case(g: "Gen") -> dict:
     """A pipeline built around one derive.parameter_sweep node (all three wrapped kinds), embedded in a
     surrounding pipeline, with non-swept parameters placed in node config / context / default."""
     rng = g.rng
     if g.chance(0.08):
         return _string_sweep_case(g)
+    if g.chance(0.06):
+        return _null_param_sweep_case(g)
     kind = rng.choice(["source", "op", "op", "probe", "probe"])
     ctx: dict = {}
     list_keys = []
